@@ -78,7 +78,7 @@ Proof. exact caps_commutes_b_spec. Qed.
 
 (* ... and the unconditional statement is refuted with Go's mappings for U+0131 (genuine defect
    C28-capslock-before-user-transform: `x: ı {style.text-transform: lowercase}` is exported as "i"
-   under themes 300/301 and as "ı" under all others) *)
+   under themes 300/301 and as "ı" under all others before that commit) *)
 Theorem C28_label_user_transform_wins_refuted :
   let upper := tbl_fun [(dotless_i, "I")] in
   let lower := tbl_fun [("I", "i")] in
